@@ -32,14 +32,19 @@ UndKinds == {"und", "sund"}
 IsMatrix(M) == DOMAIN M = Nodes /\ \A i \in Nodes : DOMAIN M[i] = Nodes
 \* @type: (Int -> (Int -> Int)) => Bool;
 Symmetric(M) == \A i \in Nodes : \A j \in Nodes : M[i][j] = M[j][i]
+\* indicator sums instead of Cardinality({...}): the same numbers, far cheaper for the SMT encoding
+\* @type: (Int) => Int;
+NZ(v) == IF v # 0 THEN 1 ELSE 0
+\* @type: (Int, Int) => Int;
+HasSgn(v, s) == IF ASgn(v) = s THEN 1 ELSE 0
 \* @type: (Int -> (Int -> Int), Int) => Int;
-OutDegA(M, i) == Cardinality({j \in Nodes : M[i][j] # 0})
+OutDegA(M, i) == NZ(M[i][1]) + NZ(M[i][2]) + NZ(M[i][3]) + NZ(M[i][4]) + NZ(M[i][5])
 \* @type: (Int -> (Int -> Int), Int) => Int;
-InDegA(M, j) == Cardinality({i \in Nodes : M[i][j] # 0})
+InDegA(M, j) == NZ(M[1][j]) + NZ(M[2][j]) + NZ(M[3][j]) + NZ(M[4][j]) + NZ(M[5][j])
 \* @type: (Int -> (Int -> Int), Int, Int) => Int;
-OutSDegA(M, i, s) == Cardinality({j \in Nodes : ASgn(M[i][j]) = s})
+OutSDegA(M, i, s) == HasSgn(M[i][1], s) + HasSgn(M[i][2], s) + HasSgn(M[i][3], s) + HasSgn(M[i][4], s) + HasSgn(M[i][5], s)
 \* @type: (Int -> (Int -> Int), Int, Int) => Int;
-InSDegA(M, j, s) == Cardinality({i \in Nodes : ASgn(M[i][j]) = s})
+InSDegA(M, j, s) == HasSgn(M[1][j], s) + HasSgn(M[2][j], s) + HasSgn(M[3][j], s) + HasSgn(M[4][j], s) + HasSgn(M[5][j], s)
 \* @type: (Int -> (Int -> Int), Int) => Int;
 OutStrA(M, i) == M[i][1] + M[i][2] + M[i][3] + M[i][4] + M[i][5]
 
